@@ -102,7 +102,7 @@ func checkToStr(c toStrCase) harness.Outcome {
 var toStrFacet = harness.Register(&harness.Facet[toStrCase]{
 	Name: "number-to-string",
 	Rule: "rapid: a double from {boundary pool, k significant digits × 10^e for k=1..17, ±40 ulps around 10^k and the layout thresholds 1e21/1e-6/1e-7, dyadic rationals, decimals ending in 5, integers up to 2^53·2^971, subnormals, random bit patterns}; String(x), x+'', x.toString(), x.toString(10), ''.concat(x) against the exact math/big model of 9.8.1 (smallest k that reads back, closest digits, layout), lib/es5.NumberToString verified against the same model on every case, and Number(String(x)), parseFloat(String(x)), +String(x) must return x; non-trivial = x is not an integer below 2^31; distinct by x bits",
-	Quick: 9000, Thorough: 160000,
+	Quick: 9000, Thorough: 120000,
 	Gen: func(t *rapid.T) toStrCase {
 		x, class := genDouble(t)
 		return toStrCase{X: harness.NumLit(x), Class: class}
